@@ -70,6 +70,7 @@ package wmpt
 //@   ensures w == W0(iface(n))                                   #reports-own-weight
 
 //@ func (*routingNode).CalcHash(r) returns (h)
+//@   locals (m, child, h)
 //@   props C15 C11
 //@   mode wrap
 //@   assigns heap(routingNode.hash), heap(shortNode.hash), heap(valueNode.hash)
@@ -142,6 +143,7 @@ package wmpt
 //@ pred ShapeOK(r *routingNode) = forall j :: 0 <= j && j < 16 ==> (r.Children[j] is *shortNode ==> r.Children[j].(*shortNode) != nil && !(r.Children[j].(*shortNode).value is *shortNode))
 
 //@ func DeserializeNode(data) returns (node, err)
+//@   locals (pNode, err, branchNode, i, child, childHash, childWeight, childNodeValue, childKey, valueNode, hashNode, shortNode, hashNode)
 //@   props C15 C10
 //@   mode wrap
 //@   ensures err == nil ==> node != nil && fresh(node)                         #fresh-node
@@ -151,6 +153,7 @@ package wmpt
 //@   loop 1 invariant RCons(&branchNode) && (forall j :: rangeindex < j && j < 16 ==> branchNode.Children[j] == nil)
 
 //@ func verifyProof(persistTrie, block, ind) returns (node, value, err)
+//@   locals (node, err, n, i, child, newNode, val, err, newNode, val, err)
 //@   props C15 C10
 //@   mode wrap
 //@   requires persistTrie != nil && ind != nil && *ind >= 0 && *ind <= len(persistTrie.Pairs)
@@ -170,6 +173,7 @@ package wmpt
 //@   requires t != nil
 
 //@ func (*WeightedMerkleTrie).deserializeTrie(t, pairs, ind) returns (node, err)
+//@   locals (node, err, n, i, child, err, child, err)
 //@   props C15 C12
 //@   mode wrap
 //@   requires ind != nil && *ind >= 0 && *ind <= len(pairs)
@@ -203,6 +207,7 @@ package wmpt
 //@ pred Nibbles(k []byte) = forall i :: 0 <= i && i < len(k) ==> k[i] < 16
 
 //@ func commonPrefix(a, b) returns (n)
+//@   locals (i, length)
 //@   props C09
 //@   assigns nothing
 //@   ensures 0 <= n && n <= len(a) && n <= len(b) && (forall i :: 0 <= i && i < n ==> a[i] == b[i])      #is-common-prefix
@@ -210,6 +215,7 @@ package wmpt
 //@   loop 1 invariant 0 <= i && i <= length && length <= len(a) && length <= len(b) && (forall j :: 0 <= j && j < i ==> a[j] == b[j])
 
 //@ func keybytesToHex(str) returns (nibbles)
+//@   locals (l, nibbles, i, b)
 //@   props C09
 //@   mode wrap
 //@   assigns nothing
@@ -254,6 +260,7 @@ package wmpt
 //@   ensures t.root != nil && !(t.root is *shortNode) ==> t.oldRoot.weight == W0(t.root)            #checkpoint-records-the-weight
 //@   ensures t.created == nil                                                                       #created-list-restarts
 //@ func (*WeightedMerkleTrie).Rollback(t)
+//@   locals (batcher, key)
 //@   props C13
 //@   mode wrap
 //@   requires t != nil && t.deleted != nil && (len(t.created) > 0 ==> t.db != nil)
@@ -263,6 +270,7 @@ package wmpt
 //@   ensures len(t.created) == 0 && t.tempDeleted == nil && len(t.deleted) == 0                     #bookkeeping-is-reset
 //@   loop 1 invariant batcher != nil
 //@ func (*WeightedMerkleTrie).RollbackTrie(t, node)
+//@   locals (batcher, hash)
 //@   props C13
 //@   mode wrap
 //@   requires t != nil && t.root != nil && t.deleted != nil && (len(t.created) > 0 ==> t.db != nil)
